@@ -200,6 +200,46 @@ class VThread:
             k.current_proc = prev_proc
             k.current_thread = prev_thread
 
+    def reap(self):
+        """End of the race: a virtual thread that never finished (abandoned race: budget, stall, killed worker) still holds suspended
+        coroutines. Left to the garbage collector they would be closed at an arbitrary later moment - inside a LATER race of the same
+        process - and the `finally` of AsyncIoAdapter.run() (`asyncio.get_event_loop().shutdown_asyncgens()`) would then act on whatever
+        loop is running at that moment and close the schedule generators of the later race. So they are cancelled and run to their end
+        here, on their own loop, while this race's environment is still installed."""
+        loop = self.loop
+        if loop is None or loop.is_closed():
+            return
+        self.finished = True
+        old_hooks = sys.get_asyncgen_hooks()
+        sys.set_asyncgen_hooks(firstiter=loop._asyncgen_firstiter_hook, finalizer=loop._asyncgen_finalizer_hook)
+        asyncio.events._set_running_loop(loop)
+        try:
+            for _ in range(50):
+                pending = [t for t in asyncio.all_tasks(loop) if not t.done()]
+                if not pending:
+                    break
+                for t in pending:
+                    t.cancel()
+                n = 0
+                while loop._ready and n < 10000:
+                    loop._run_once()
+                    n += 1
+                if not loop._ready and any(not t.done() for t in pending):
+                    # a coroutine swallowed the cancellation and waits for a timer: fire the timers without moving the clock
+                    for h in list(loop._scheduled):
+                        if not h._cancelled:
+                            h.cancel()
+                            loop._ready.append(asyncio.Handle(h._callback, h._args, loop, h._context))
+        except BaseException:  # noqa - teardown only
+            pass
+        finally:
+            asyncio.events._set_running_loop(None)
+            sys.set_asyncgen_hooks(*old_hooks)
+            try:
+                loop.close()
+            except BaseException:  # noqa
+                pass
+
     def _must_not_idle(self, when):
         raise RuntimeError("stepped loop asked to idle")
 
